@@ -21,8 +21,8 @@ import Py4hwV.Proofs.C08Gates
                  priorityEncoder_inc_spec priorityEncoder_dec_spec minterm_spec sumOfMinterms_spec swap_spec
     comparators  equal_spec equalConstant_spec equalConstant_wrap notEqualConstant_spec anyEqual_spec comparator_spec
                  comparatorSU_spec max2_spec min2_spec signedMax2_spec signedMin2_spec
-    repaired     xor2_wide_fixed (former xor2_wide_counterexample, /repo commit 4cfd4ac), norN_wide_fixed (5a57ad0)
-    negative     nor2_wide_counterexample equalConstant_out_of_range_counterexample priorityEncoder_docstring_counterexample
+    repaired     xor2_wide_fixed (former xor2_wide_counterexample, /repo commit 4cfd4ac), norN_wide_fixed (99fa1f2), nor2_wide_fixed (aa5aa9b)
+    negative     equalConstant_out_of_range_counterexample priorityEncoder_docstring_counterexample
 -/
 namespace C08
 open Lib Leaf
@@ -121,7 +121,8 @@ example : Lib.xorN 5 [(2, 3), (4, 9), (3, 5)] = 15 := by      -- mixed widths, r
 example : Lib.norN 3 [1, 4] = 2 := by rw [norN_spec 3 _ (by decide)]; decide
 example : Lib.norN 8 [41, 54, 127, 1] = 128 := by rw [norN_spec 8 _ (by decide)]; decide      -- former witness of C08-nor-wide
 example : Lib.nand2 3 3 6 3 = 5 := by rw [nand2_spec 3 3 6 3 (by decide)]; decide
-example : Lib.nor2 3 3 4 1 = 2 := by rw [nor2_spec 3 3 4 1 (by decide)]; decide
+example : Lib.nor2 3 3 4 1 = 2 := by rw [nor2_spec]; decide
+example : Lib.nor2 2 4 0 12 = 3 := by rw [nor2_spec]; decide      -- former witness of C08-nor2-wide
 example : Lib.xor2 3 3 3 6 3 = 5 := by rw [xor2_spec 3 3 3 6 3 (by decide) (by decide)]; decide
 example : Lib.xor2 8 10 9 122 1 = 123 := by      -- former witness of C08-xor2-wide: result wider than `a`
   rw [xor2_val 8 10 9 122 1 (by decide) (by decide)]; decide
